@@ -50,6 +50,7 @@ type Profile struct {
 
 type genState struct {
 	curRet      int
+	wideFanRoot bool
 	r           *Rand
 	sp          *Spec
 	avail       []int // types that may be used as inputs (have a supplier or are designated arguments)
@@ -287,7 +288,7 @@ func genOnce(r *Rand, pkg string, prof Profile) *Spec {
 	if r.Chance(1, 3) {
 		nProv = 1 + r.Intn(4) // many small programs
 	}
-	shapes := []string{"random", "chain", "fan", "diamond", "syncroot", "joinsink", "layered", "layered", "layered", "tree", "tree", "ladder", "rails"}
+	shapes := []string{"random", "chain", "fan", "diamond", "syncroot", "joinsink", "layered", "layered", "layered", "tree", "tree", "ladder", "rails", "widefan"}
 	shape := shapes[r.Intn(len(shapes))]
 	g.sp.Shape = shape
 	recency := 0
@@ -297,10 +298,23 @@ func genOnce(r *Rand, pkg string, prof Profile) *Spec {
 		nProv = 5 + r.Intn(8)
 		g.argOdds = 40
 		recency = 3
+		if r.Chance(1, 5) && !prof.AdversarialNames {
+			// now and then a large service graph: thresholds in the generator (bitsets, matching,
+			// slice growth) are only crossed by declarations of this size
+			nProv = 20 + r.Intn(21)
+			g.sp.Large = true
+		}
 	}
 	switch shape {
 	case "chain":
 		recency = 8
+		if r.Chance(1, 3) && !prof.AdversarialNames {
+			// a deep chain: dependency depth beyond any bound a generator is likely to hard-code (8, 16)
+			nProv = 24 + r.Intn(12)
+			recency = 10
+			g.argOdds = 40
+			g.sp.Large = true
+		}
 	case "fan", "syncroot":
 		recency = -7
 	case "diamond":
@@ -373,6 +387,46 @@ func genOnce(r *Rand, pkg string, prof Profile) *Spec {
 			g.avail = append(g.avail, p.Out...)
 		}
 		nProv = r.Intn(2)
+	}
+	if shape == "widefan" && prof.AdversarialNames {
+		shape = "fan"
+		g.sp.Shape = shape
+	}
+	if shape == "widefan" {
+		// more than 16 services next to each other (input-free, or all fed by one synchronous root),
+		// a few joins over them and a sink: more goroutine chains and more ready nodes than any
+		// threshold a generator is likely to hard-code (8, 16)
+		root := -1
+		if r.Chance(1, 2) {
+			rp := Provider{Name: fmt.Sprintf("P%d", len(g.sp.Providers)), Form: "func", Out: []int{g.newType(KPtr)}}
+			g.sp.Providers = append(g.sp.Providers, rp)
+			root = rp.Out[0]
+			g.avail = append(g.avail, root)
+			g.wideFanRoot = true
+		}
+		var svc []int
+		for j, n := 0, 17+r.Intn(8); j < n; j++ {
+			p := Provider{Name: fmt.Sprintf("P%d", len(g.sp.Providers)), Form: "func", Out: []int{g.newType(g.freshValueKind())}}
+			if root >= 0 {
+				p.In = []int{root}
+			}
+			p.Fallible = r.Intn(12) < fallP
+			g.sp.Providers = append(g.sp.Providers, p)
+			g.avail = append(g.avail, p.Out...)
+			svc = append(svc, p.Out[0])
+		}
+		for j, n := 0, 1+r.Intn(3); j < n; j++ {
+			a, b := svc[r.Intn(len(svc))], svc[r.Intn(len(svc))]
+			p := Provider{Name: fmt.Sprintf("P%d", len(g.sp.Providers)), Form: "func", In: []int{a}, Out: []int{g.newType(g.freshValueKind())}}
+			if b != a {
+				p.In = append(p.In, b)
+			}
+			p.Fallible = r.Intn(6) < fallP
+			g.sp.Providers = append(g.sp.Providers, p)
+			g.avail = append(g.avail, p.Out...)
+		}
+		g.sp.Large = true
+		nProv = 0
 	}
 	for i := 0; i < nProv; i++ {
 		k := r.Intn(4)
@@ -542,7 +596,7 @@ func genOnce(r *Rand, pkg string, prof Profile) *Spec {
 
 	// most programs end in a sink that joins several branches, so that the needed closure is wide
 	sinkOut := treeRoot
-	if treeRoot < 0 && len(g.sp.Providers) >= 2 && r.Chance(3, 4) {
+	if treeRoot < 0 && len(g.sp.Providers) >= 2 && (r.Chance(3, 4) || shape == "widefan") {
 		var outs []int
 		for i := range g.sp.Providers {
 			p := &g.sp.Providers[i]
@@ -569,6 +623,9 @@ func genOnce(r *Rand, pkg string, prof Profile) *Spec {
 		k := 2 + r.Intn(3)
 		if shape == "layered" && r.Chance(1, 3) {
 			k = 3 + r.Intn(6) // a wide sink: consumes most of what the graph produces
+		}
+		if shape == "widefan" {
+			k = 8 + r.Intn(20)
 		}
 		if shape == "ladder" {
 			k = 10 // the sink consumes every value the ladder produces (capped by what exists)
@@ -655,7 +712,7 @@ func genOnce(r *Rand, pkg string, prof Profile) *Spec {
 		return ref.NeededUses*2 + ref.FieldReads
 	}
 	pickRet := func() int {
-		if sinkOut >= 0 && (r.Chance(4, 5) || treeRoot >= 0) {
+		if sinkOut >= 0 && (r.Chance(4, 5) || treeRoot >= 0 || g.sp.Shape == "widefan") {
 			return sinkOut
 		}
 		if len(argCands) > 0 && r.Chance(1, 50) {
@@ -886,6 +943,12 @@ func (g *genState) variant(base []Use, k int) []Use {
 	}
 	if g.prof.MinAsyncFree > 0 {
 		mode = []int{3, 4, 5, 8, 8}[r.Intn(5)]
+	}
+	if g.sp.Shape == "widefan" && r.Chance(3, 4) {
+		mode = 8 // services and joins asynchronous, the sink synchronous
+		if g.wideFanRoot {
+			mode = 7 // ... and the root synchronous
+		}
 	}
 	// which providers produce nothing anyone else consumes (sinks)
 	consumed := map[int]bool{}
